@@ -698,7 +698,7 @@ struct Recv<'a> {
 impl Hooks for Recv<'_> {
     fn after_build(&mut self, w: &mut World, who: usize, _out: &mls_rs::group::CommitOutput) {
         // applying the pending commit
-        self.e.run(w, who, "apply_pending_commit", true, &|g| g.apply_pending_commit().map(|d| {
+        self.e.run(w, who, "apply_pending_commit", true, &|g| g.apply_pending_alt().map(|d| {
             OpOut::Event(match d.effect {
                 CommitEffect::NewEpoch(_) => "commit_new_epoch",
                 CommitEffect::Removed { .. } => "commit_removed",
